@@ -112,37 +112,61 @@ func c05r2(c *Ctx) {
 		c.Anchor(rule, "vmcommon.IsAllowedToSaveUnderKey / ElrondProtectedKeyPrefix")
 		return
 	}
-	e := c.P.Env(fn)
 	key := "P:" + paramName(fn.Params[0])
 	n := int64(len(prefix))
 	shortFact := leConst(n).minus(leAtom("len(" + key + ")")).addK(-1).String() // len(key) < n
-	for _, r := range returnsOf(fn) {
-		rv := retval(r, 0)
-		construct := fmt.Sprintf("return %s @b%d", e.Term(rv), r.Block().Index)
-		if k, isC := boolConst(rv); isC {
-			if !k {
-				c.Triv(rule, FuncName(fn), construct, c.P.InstrPos(r), "refuses")
+	want := eqAtom(fmt.Sprintf("%s[:%d]", key, n), fmt.Sprintf("%q", prefix))
+	// The verdict may be delegated to (the negation of) a boolean helper: its returns are judged with the polarity under
+	// which they become the verdict; parameters are substituted along the way, so every fact is about the key given.
+	var judge func(e *Env, pol bool, depth int)
+	judge = func(e *Env, pol bool, depth int) {
+		g := e.Fn
+		for _, r := range returnsOf(g) {
+			rv := retval(r, 0)
+			shown := e.Term(rv)
+			if !pol {
+				shown = "!(" + shown + ")"
+			}
+			construct := fmt.Sprintf("return %s @b%d", shown, r.Block().Index)
+			if g != fn {
+				construct = g.Name() + ": " + construct
+			}
+			if k, isC := boolConst(rv); isC {
+				if k != pol {
+					c.Triv(rule, FuncName(g), construct, c.P.InstrPos(r), "refuses")
+					continue
+				}
+				if fs, ok := e.CutAt(r, func(f Fact) bool { return f.Lin && f.LE.String() == shortFact }, nil); ok {
+					c.OK(rule, FuncName(g), construct, c.P.InstrPos(r), "only under "+fs[0].String())
+				} else {
+					c.FailX(Oblig{Rule: rule, Func: FuncName(g), Construct: construct, Pos: c.P.InstrPos(r), Kind: "violation",
+						Detail: "accepts a key without it being strictly shorter than the protected prefix", Path: pathAvoidingPred(e, r.Block(), func(f Fact) bool { return f.Lin && f.LE.String() == shortFact }),
+						Expected: fmt.Sprintf("return true only under len(key) < %d", n)})
+				}
 				continue
 			}
-			if fs, ok := e.CutAt(r, func(f Fact) bool { return f.Lin && f.LE.String() == shortFact }, nil); ok {
-				c.OK(rule, FuncName(fn), construct, c.P.InstrPos(r), "only under "+fs[0].String())
-			} else {
-				c.FailX(Oblig{Rule: rule, Func: FuncName(fn), Construct: construct, Pos: c.P.InstrPos(r), Kind: "violation",
-					Detail: "accepts a key without it being strictly shorter than the protected prefix", Path: pathAvoidingPred(e, r.Block(), func(f Fact) bool { return f.Lin && f.LE.String() == shortFact }),
-					Expected: fmt.Sprintf("return true only under len(key) < %d", n)})
+			// delegation
+			inner, ipol := rv, pol
+			if u, ok := inner.(*ssa.UnOp); ok && u.Op == token.NOT {
+				inner, ipol = u.X, !pol
 			}
-			continue
-		}
-		// the verdict is exactly "the first n bytes differ from the prefix", in whichever comparison idiom it is written
-		want := eqAtom(fmt.Sprintf("%s[:%d]", key, n), fmt.Sprintf("%q", prefix))
-		fs := e.decode(rv, true, "")
-		if len(fs) == 1 && !fs[0].Lin && !fs[0].Pos && fs[0].Atom == want {
-			c.OK(rule, FuncName(fn), construct, c.P.InstrPos(r), "accepts exactly when the first "+fmt.Sprint(n)+" bytes differ from "+prefix)
-		} else {
-			c.FailX(Oblig{Rule: rule, Func: FuncName(fn), Construct: construct, Pos: c.P.InstrPos(r), Kind: "violation",
-				Detail: "the non-constant verdict is " + e.Term(rv), Expected: "!" + want})
+			if call, ok := inner.(*ssa.Call); ok && depth < 3 {
+				if sc := call.Call.StaticCallee(); sc != nil && len(sc.Blocks) > 0 && sc.Pkg != nil && strings.HasPrefix(sc.Pkg.Pkg.Path(), modPath) && sc != g {
+					judge(e.Sub(call, sc), ipol, depth+1)
+					continue
+				}
+			}
+			// the verdict is exactly "the first n bytes differ from the prefix", in whichever comparison idiom it is written
+			fs := e.decode(rv, pol, "")
+			if len(fs) == 1 && !fs[0].Lin && !fs[0].Pos && fs[0].Atom == want {
+				c.OK(rule, FuncName(g), construct, c.P.InstrPos(r), "accepts exactly when the first "+fmt.Sprint(n)+" bytes differ from "+prefix)
+			} else {
+				c.FailX(Oblig{Rule: rule, Func: FuncName(g), Construct: construct, Pos: c.P.InstrPos(r), Kind: "violation",
+					Detail: "the non-constant verdict is " + shown, Expected: "!" + want})
+			}
 		}
 	}
+	judge(c.P.Env(fn), true, 0)
 }
 
 // c05r3 also implements R4 (account provenance) on the same sites.
